@@ -27,4 +27,26 @@ fn main() {
     fs::write(dest, out).unwrap();
     println!("cargo:rerun-if-changed=src/ops");
     println!("cargo:rustc-check-cfg=cfg(kaj_rsass_verif)");
+    // Does the rsass tree we build against have the provided trait method
+    // `Loader::find_first` (commit 31d0dab)?  Older trees (self-tests, seeded changes) do not;
+    // the in-memory loaders override it only when it exists.
+    println!("cargo:rustc-check-cfg=cfg(rsass_has_find_first)");
+    println!("cargo:rerun-if-changed=Cargo.toml");
+    if let Some(rsass) = rsass_path() {
+        let loader = Path::new(&rsass).join("src/input/loader.rs");
+        println!("cargo:rerun-if-changed={}", loader.display());
+        if fs::read_to_string(&loader).is_ok_and(|t| t.contains("fn find_first")) {
+            println!("cargo:rustc-cfg=rsass_has_find_first");
+        }
+    }
+}
+
+/// the `path` of the `rsass = { path = "…" }` dependency in this crate's Cargo.toml
+fn rsass_path() -> Option<String> {
+    let toml = fs::read_to_string("Cargo.toml").ok()?;
+    let line = toml.lines().find(|l| l.trim_start().starts_with("rsass") && l.contains("path"))?;
+    let rest = &line[line.find("path")?..];
+    let start = rest.find('"')? + 1;
+    let end = start + rest[start..].find('"')?;
+    Some(rest[start..end].to_string())
 }
